@@ -280,6 +280,7 @@ bool SimpSMTSolver::strengthenClause(CRef cr, Lit l)
         n_occ[toInt(l)]--;
         updateElimHeap(var(l));
     }
+    OPENSMT_VERIF(verif::clauseRef('s', c));
 
     return c.size() == 1 ? enqueue(c[0]) && propagate() == CRef_Undef : true;
 }
@@ -568,6 +569,7 @@ static void mkElimClause(vec<uint32_t>& elimclauses, Var v, Clause& c)
 
 bool SimpSMTSolver::eliminateVar(Var v)
 {
+    OPENSMT_VERIF_DECL(verif::DerivedScope verifDerived;)
     assert(!frozen[v]);
     assert(!isEliminated(v));
     assert(value(v) == l_Undef);
@@ -637,6 +639,7 @@ bool SimpSMTSolver::eliminateVar(Var v)
 
 bool SimpSMTSolver::substitute(Var v, Lit x)
 {
+    OPENSMT_VERIF_DECL(verif::DerivedScope verifDerived;)
     assert(!frozen[v]);
     assert(!isEliminated(v));
     assert(value(v) == l_Undef);
